@@ -11,6 +11,7 @@ zeros afterwards (`freed_blocks_are_all_zeros`), and truncation writes nothing b
 import GoNfsd.Lemmas.FsStep
 import GoNfsd.Lemmas.InoOps
 import GoNfsd.Lemmas.FileDataBridge
+import GoNfsd.Lemmas.Files
 
 namespace GoNfsd.Props.C12
 open GoNfsd.Model.Fs GoNfsd.Gen.Consts
@@ -191,6 +192,62 @@ example : FreshAll F.empty h12 := by
     omega
 example : ((h12.foldl F.apply F.empty).byte 6, (h12.foldl F.apply F.empty).byte 3) = (0, 0xe2) := by
   decide
+
+/-! #### many files on one disk: blocks change owner, bytes never do -/
+
+/-- That a block the allocator hands out holds zero BYTES is not assumed: it follows from the
+    invariant "a block nobody owns holds zeros" (true of a formatted disk, kept because `FreeBlock`
+    clears what `Resize` gives back).  What is asked of the allocator is only what M2 proves of it:
+    a real block, owned by nobody, none twice. -/
+theorem fresh_blocks_hold_zero_bytes (g : G) (h : GInv g) (a : Nat) (fresh : Nat → Nat)
+    (hf : GFresh g a fresh) : FreshOK (g.file a) fresh := freshOK_of_GFresh g h a fresh hf
+
+/-- A WRITE to one file and a size change of one file (also to 0: the content of a removed file)
+    change no byte of any other file — whatever blocks they take from or give back to the
+    allocator — and keep the invariant. -/
+theorem one_file_changes_no_byte_of_another (g : G) (a : Nat) (h : GInv g) :
+    (∀ fresh off bytes, GFresh g a fresh →
+      GInv (g.write a fresh off bytes) ∧
+      ∀ b, b ≠ a → ∀ p, ((g.write a fresh off bytes).file b).byte p = (g.file b).byte p) ∧
+    (∀ n, GInv (g.resize a n) ∧ ∀ b, b ≠ a → ∀ p, ((g.resize a n).file b).byte p = (g.file b).byte p) :=
+  ⟨fun fresh off bytes hf => ⟨(gwrite_ok g a fresh off bytes h hf).1, (gwrite_ok g a fresh off bytes h hf).2.2⟩,
+   fun n => ⟨(gresize_ok g a n h).1, (gresize_ok g a n h).2.2⟩⟩
+
+/-- OLD DATA IS NEVER EXPOSED, at the level of disk blocks: on a disk shared by any number of
+    files, after ANY history of writes, truncations, growths and removals of content — blocks
+    freed by one file and handed to another any number of times — EVERY file shows, byte for byte
+    and in every READ, exactly its own content log (the reference model M6), in which a byte never
+    written reads as zero (`never_written_zero`). -/
+theorem no_file_ever_shows_foreign_bytes (ops : List GOp) (hf : GFreshAll G.empty ops) (a : Nat) :
+    let g := ops.foldl G.apply G.empty
+    let L := ops.foldl logsApply (fun _ => ([], 0))
+    (g.file a).size = (L a).2 ∧ (∀ p, (g.file a).byte p = byteAt (L a).1 p) ∧
+    ∀ off n, (g.file a).read off n = readBytes (L a).1 off n := by
+  obtain ⟨_, hr⟩ := ghistory_refines ops G.empty (fun _ => ([], 0)) gempty_inv gempty_rel hf
+  exact ⟨(hr a).1, (hr a).2, fun off n => read_refines _ _ _ off n (hr a)⟩
+
+/-- Non-vacuity: file 1 writes, is cut to nothing (its block 100 goes back, cleared), file 2 takes
+    the SAME block 100 and grows over it: file 2 reads zeros where file 1's bytes were. -/
+def g12 : List GOp := [.write 1 (fun i => 100 + i) 0 #[0xaa, 0xaa, 0xaa, 0xaa], .resize 1 0,
+  .write 2 (fun i => 100 + i) 0 #[0xbb], .resize 2 4]
+example : GFreshAll G.empty g12 := by
+  refine ⟨?_, trivial, ?_, trivial, trivial⟩
+  · intro i _
+    exact ⟨by show 100 + i ≠ 0; omega, fun b j => by show (0 : Nat) ≠ 100 + i; omega,
+      fun j _ e => by have e' : 100 + j = 100 + i := e; omega⟩
+  · intro i _
+    refine ⟨by show 100 + i ≠ 0; omega, fun b j => ?_, fun j _ e => by have e' : 100 + j = 100 + i := e; omega⟩
+    -- after the truncation to 0 nobody owns anything
+    have : ∀ b j, (((G.empty.write 1 (fun i => 100 + i) 0 [0xaa, 0xaa, 0xaa, 0xaa]).resize 1 0).maps b j) = 0 := by
+      intro b j
+      by_cases hb : b = 1
+      · subst hb
+        simp [G.resize, G.setFile, F.resizeZ, resize_map, roundUp, BS, G.file, G.write, F.write]
+      · simp [G.resize, G.setFile, G.write, G.empty, hb]
+    show ((G.empty.write 1 (fun i => 100 + i) 0 [0xaa, 0xaa, 0xaa, 0xaa]).resize 1 0).maps b j ≠ 100 + i
+    rw [this]; omega
+example : ((g12.foldl G.apply G.empty).maps 2 0, ((g12.foldl G.apply G.empty).file 2).read 0 4) =
+    (100, [0xbb, 0, 0, 0]) := by decide +kernel
 
 end blocks
 
